@@ -611,6 +611,11 @@ class SpawnRunner:
         try:
             if sc.get("forkdelay"):
                 env["VSHIM_FORKDELAY"] = "%s:%d" % (prog, sc["forkdelay"])
+            if sc.get("spfault"):
+                # one call of the spawner itself fails (pipe, fork, open or fstat of the message file, a read of the command stream): the
+                # command it hits still gets exactly one report with its own number, the others are served as usual
+                env["VSHIM_FAULT"] = "%s:%s:%d:%s" % (prog, sc["spfault"][0], sc["spfault"][1], sc["spfault"][2])
+                env["VSHIM_FAULT_GEN"] = "0"
             rc, out, err = sandbox.run_proc(argv, env, stdin=stream, timeout=20 + (8 if sc.get("forkdelay") else 0),
                                             on_timeout=lambda pid: stuck.extend([sandbox.stuck_with_zombies(pid), sandbox.stuck_without_children(pid)]))
         finally:
@@ -753,6 +758,12 @@ def spawn_sweep():
                 out.append({"part": "spawn", "which": which, "cmds": cmds, "tail": 2, "child": {"exit": ex, "out": j(o)}})
         out.append({"part": "spawn", "which": which, "cmds": [{"d": 1, "m": j(b"1/1"), "s": j(b"s@x"), "r": j(b"r@host")}], "tail": 0,
                     "child": {"exit": 0, "kill": 11, "out": j(b"dying\n")}})
+        # every early call of the spawner failing once, with three valid commands pending
+        for cls, ks, er in (("pipe", range(4), "24"), ("fork", range(3), "11"), ("open", range(4), "23"), ("fstat", range(3), "5"), ("read", range(1, 3), "4")):
+            for k in ks:
+                cmds = [{"d": d, "m": j(m), "s": j(b"s@x"), "r": j(b"r@host")} for d, m in ((7, b"1/1"), (8, b"2/25"), (9, b"0/23"))]
+                out.append({"part": "spawn", "which": which, "cmds": cmds, "tail": 0, "child": {"exit": 0, "out": j(b"Kok\0" if which == "r" else b"ok\n")},
+                            "spfault": [cls, k, er]})
         # the parent is held up after each fork(): the delivery child finishes before the spawner has noted its pid
         for n in (1, 3):
             cmds = [{"d": d, "m": j(b"1/1"), "s": j(b"s@x"), "r": j(b"r@host")} for d in range(n)]
